@@ -415,7 +415,8 @@ def check(run: Run, prog: Program, tier: str) -> str:
              "stores every sample it gets")
     run.rule("C08.NONE", "function called iff relevant samples exist; None otherwise")
     run.rule("C08.BUF", "bounded deque, right-append only, re-created from old content on resize")
-    run.rule("C08.EST", "input period estimated only after excluding now <= sampling_start")
+    run.rule("C08.EST", "input period estimated only after excluding now <= sampling_start, reachable while unknown, "
+             "= elapsed / received; add_sample counts every stored sample once and records the first timestamp")
     run_rules(run, prog)
     run.floor("C08.EDGE", 4)
     run.floor("C08.FILTER", 3)
